@@ -47,6 +47,7 @@ FRAGMENT_NAMES = [
     "XML comment start", "XML comment end", "end tag </summary>", "ampersand", "less than", "greater than", "backtick", "template substitution start",
     "paragraph break", "star", "space", "word", "block comment end inside an inline literal", "Java Unicode escape of a line feed",
     "Java Unicode escape of a star, then slash", "line feed inside a paragraph", "LINE SEPARATOR U+2028", "opening brace",
+    "CDATA section end", "CDATA section start", "processing instruction start", "entity reference as text", "character reference as text",
 ]
 PATTERN_NAMES = [
     "double quote", "single quote", "backslash", "block comment end", "block comment start", "line comment start", "XML comment start", "XML comment end",
@@ -55,22 +56,44 @@ PATTERN_NAMES = [
 HARMLESS = "W zq"
 
 
+QUOTING = (1, 2, 3, 4)  # double quote, three double quotes, single quote, backslash: what ends / escapes literals
+
+
 def choose_cases(ck: core.Check, gen: Dict[str, Any], rnd: random.Random, n_quick: int = 5) -> Tuple[List[Dict[str, Any]], int]:
-    """Spend the budget: every single fragment at the end of the text, a seeded sample of the rest; every pattern (quick: a sample)."""
-    cands = []
-    for p in gen["payloads"]:
-        rst = core.from_cps(p["rst"])
-        if docutils_accepts(rst):
-            cands.append({"kind": "text", "ids": p["ids"], "layout": p["layout"], "rst": rst, "plain": core.from_cps(p["plain"]), "pattern": None, "twin_id": 0})
-    cands.sort(key=lambda c: (len(c["ids"]), c["ids"], c["layout"]))
-    singles_tail = [c for c in cands if len(c["ids"]) == 1 and c["layout"] == "tail"]
-    # line-breaking fragments only matter with text after them: always also in the middle of the text
-    # (break fragment, word) at the end of the text: a second paragraph / line
-    singles_mid_breaks = [c for c in cands if c["layout"] == "tail" and c["ids"] in ([16, 19], [23, 19], [24, 19])]
-    singles_other = [c for c in cands if len(c["ids"]) == 1 and c["layout"] != "tail"]
-    longer = [c for c in cands if len(c["ids"]) > 1 and c not in singles_mid_breaks]
-    rnd.shuffle(singles_other)
-    rnd.shuffle(longer)
+    """Spend the budget. Always: every single fragment at the end of a short text; every pair (thorough: triple) of
+    quoting fragments (quotes, backslash) at the end of a short text - escaping decisions depend on what precedes the
+    last character; (break fragment, word). Sampled (seeded): the same quoting endings after a long text (targets switch
+    to multi-line forms), other layouts, other sequences. Patterns: every single one (quick: a sample)."""
+    accepted = 0
+
+    def mk(p: Dict[str, Any]) -> Dict[str, Any]:
+        return {"kind": "text", "ids": p["ids"], "layout": p["layout"], "rst": core.from_cps(p["rst"]), "plain": core.from_cps(p["plain"]), "pattern": None, "twin_id": 0}
+
+    def take(pool: List[Dict[str, Any]], n: int) -> List[Dict[str, Any]]:
+        # the docutils pre-filter is applied lazily: only to what might be chosen
+        nonlocal accepted
+        out = []
+        for p in pool:
+            if len(out) >= n:
+                break
+            c = mk(p)
+            if docutils_accepts(c["rst"]):
+                accepted += 1
+                out.append(c)
+        return out
+
+    pl = sorted(gen["payloads"], key=lambda p: (len(p["ids"]), p["ids"], p["layout"]))
+    quoting = lambda p: all(i in QUOTING for i in p["ids"])
+    singles_tail = [p for p in pl if len(p["ids"]) == 1 and p["layout"] == "tail"]
+    breaks = [p for p in pl if p["layout"] == "tail" and p["ids"] in ([16, 19], [23, 19], [24, 19])]
+    quoting_tail = [p for p in pl if len(p["ids"]) > 1 and p["layout"] == "tail" and quoting(p)]
+    quoting_long = [p for p in pl if p["layout"] == "longtail" and quoting(p)]
+    fixed = singles_tail + breaks + quoting_tail
+    rest_single = [p for p in pl if len(p["ids"]) == 1 and p["layout"] != "tail" and p not in quoting_long]
+    rest_longer = [p for p in pl if len(p["ids"]) > 1 and p not in fixed and p not in quoting_long]
+    rnd.shuffle(quoting_long)
+    rnd.shuffle(rest_single)
+    rnd.shuffle(rest_longer)
     pats = [{"kind": "pattern", "ids": p["ids"], "layout": "pattern", "rst": HARMLESS, "plain": HARMLESS, "pattern": core.from_cps(p["re"]), "twin_id": 1} for p in gen["patterns"]]
     pats.sort(key=lambda c: (len(c["ids"]), c["ids"], c["pattern"]))
     p_single_tail = [c for c in pats if len(c["ids"]) == 1 and c["pattern"].startswith("z")]
@@ -78,12 +101,12 @@ def choose_cases(ck: core.Check, gen: Dict[str, Any], rnd: random.Random, n_quic
     rnd.shuffle(p_rest)
     if ck.quick:
         rnd.shuffle(p_single_tail)
-        chosen = singles_tail + singles_mid_breaks + singles_other[:3] + longer[:n_quick] + p_single_tail[:6] + p_rest[:1]
+        chosen = take(fixed, 10**6) + take(quoting_long, 5) + take(rest_single, 3) + take(rest_longer, n_quick) + p_single_tail[:6] + p_rest[:1]
     else:
-        chosen = singles_tail + singles_mid_breaks + singles_other + longer[:150] + p_single_tail + p_rest[:40]
+        chosen = take(fixed, 10**6) + take(quoting_long, 10**6) + take(rest_single, 10**6) + take(rest_longer, 80) + p_single_tail + p_rest[:40]
     for i, c in enumerate(chosen):
         c["id"] = i + 1
-    return chosen, len(cands)
+    return chosen, accepted
 
 
 def fragment_names(c: Dict[str, Any]) -> List[str]:
@@ -141,8 +164,8 @@ def run(ck: core.Check, model_check: bool = True, n_quick: int = 5) -> int:
     replay = os.environ.get("VERIF_REPLAY")
     # M
     if model_check and not replay:
-      ck.model_check("MC_Lexers", "MC_Lexers.cfg", "lexer machines: totality, mode discipline, error absorbing, skeleton lemmas", workers=8, jvm=JVM, timeout=900)
-      ck.model_check("MC_XmlLex", "MC_XmlLex%s.cfg" % suffix, "XML machine: total; escaped text is always well-formed, lone markup never", workers=8, jvm=JVM, timeout=900)
+      ck.model_check("MC_Lexers", "MC_Lexers.cfg", "lexer machines: totality, mode discipline, error absorbing, skeleton lemmas", workers=4, jvm=JVM, timeout=900)
+      ck.model_check("MC_XmlLex", "MC_XmlLex%s.cfg" % suffix, "XML machine: total; escaped text is always well-formed, lone markup never", workers=4, jvm=JVM, timeout=900)
     # G
     pay_p = ck.work / "payloads.json"
     ck.tlc("LexPayloadGen", "LexPayloadGen%s.cfg" % suffix, what="G: payloads (fragment sequences x layouts)", env={"VERIF_OUT": str(pay_p)}, count=False, jvm=JVM, timeout=600)
@@ -162,7 +185,7 @@ def run(ck: core.Check, model_check: bool = True, n_quick: int = 5) -> int:
     twin = twin_list[0]
     # R
     in_p, obs_p = ck.work / "in.json", ck.work / "obs.json"
-    core.write_json(in_p, {"cases": cases, "twins": twin_list, "k": K, "targets": TARGETS, "procs": 8, "dump_dir": str(ck.work / "dump")})
+    core.write_json(in_p, {"cases": cases, "twins": twin_list, "k": K, "targets": TARGETS, "procs": 4, "dump_dir": str(ck.work / "dump")})
     ck.impl("harness.run_c20", [str(in_p), str(obs_p)])
     obs = core.read_json(obs_p)
     gens = obs["gens"]
@@ -189,7 +212,7 @@ def run(ck: core.Check, model_check: bool = True, n_quick: int = 5) -> int:
         twins.append({"target": w["target"], "lang": {"csharp": "cs", "golang": "go", "java": "java", "typescript": "ts", "python": "py", "cpp": "cpp"}[w["target"]], "path": "case%d:%s" % (w["case"], w["path"]), "text": w["text"]})
     files_p = ck.work / "files.json"
     core.write_json(files_p, {"k": K, "twins": [{"lang": t["lang"], "text": t["text"]} for t in twins], "hunks": [{"twin": h["twin"], "tb": h["tb"], "te": h["te"], "text": h["text"]} for h in hunks]})
-    res = ck.tlc("LexFileTrace", what="V: twin files and variant hunks through the lexer machines", env={"VERIF_FILES": str(files_p)}, cont=True, workers=8, jvm=JVM, timeout=2400, extra=["-difftrace"])
+    res = ck.tlc("LexFileTrace", what="V: twin files and variant hunks through the lexer machines", env={"VERIF_FILES": str(files_p)}, cont=True, workers=4, jvm=JVM, timeout=2400, extra=["-difftrace"])
     parse_ok = {(p["case"], p["target"], p["path"]): p["ok"] for p in parses}
     found: List[Dict[str, Any]] = []  # violations before attribution
     hunk_fail: List[Dict[str, Any]] = []
@@ -247,7 +270,7 @@ def run(ck: core.Check, model_check: bool = True, n_quick: int = 5) -> int:
             merged.append({"twin": t_map[tw], "tb": hs[0]["tb"], "te": hs[-1]["te"], "text": text, "case": case, "target": hs[0]["target"], "path": hs[0]["path"], "orig_twin": tw})
         files2_p = ck.work / "files2.json"
         core.write_json(files2_p, {"k": K, "twins": [{"lang": twins[tw - 1]["lang"], "text": twins[tw - 1]["text"]} for tw in t_index], "hunks": [{"twin": m["twin"], "tb": m["tb"], "te": m["te"], "text": m["text"]} for m in merged]})
-        res2 = ck.tlc("LexFileTrace", what="V: failing files again with all their hunks as one", env={"VERIF_FILES": str(files2_p)}, cont=True, workers=8, jvm=JVM, timeout=2400, extra=["-difftrace"])
+        res2 = ck.tlc("LexFileTrace", what="V: failing files again with all their hunks as one", env={"VERIF_FILES": str(files2_p)}, cont=True, workers=4, jvm=JVM, timeout=2400, extra=["-difftrace"])
         seen2 = set()
         for v in res2.violations:
             if v["invariant"] != "Inv_SkeletonIndependentOfPayload":
@@ -269,7 +292,7 @@ def run(ck: core.Check, model_check: bool = True, n_quick: int = 5) -> int:
     if doc_list:
         dp = ck.work / "docs.json"
         core.write_json(dp, doc_list)
-        r2 = ck.tlc("XmlDocTrace", what="V: C# documentation comments are well-formed XML", env={"VERIF_DOCS": str(dp)}, cont=True, workers=8, jvm=JVM, timeout=900)
+        r2 = ck.tlc("XmlDocTrace", what="V: C# documentation comments are well-formed XML", env={"VERIF_DOCS": str(dp)}, cont=True, workers=4, jvm=JVM, timeout=900)
         for v in r2.violations:
             i = int(re.match(r"\s*(\d+)", r2.var_of(v, "i") or "0").group(1))
             d = doc_meta[i - 1]
@@ -333,7 +356,7 @@ def run(ck: core.Check, model_check: bool = True, n_quick: int = 5) -> int:
     ck.cov["distinct_nontrivial"] = len({(h["case"], h["target"], h["path"], h["tb"]) for h in hunks})
     ck.cov["traces_validated_against_impl"] = len(twins) + len(hunks)
     ck.cov["rule"] = (
-        "G (TLC): %d payloads (sequences of <= %d of 25 hostile fragments x 3 layouts), %d pass docutils, %d chosen (all single fragments at the end of the text + seeded sample); "
+        "G (TLC): %d payloads (sequences of <= %d of 30 hostile fragments x 4 layouts), %d of those examined pass docutils, %d chosen (all single fragments and all quote/backslash sequences at the end of a short text + seeded sample incl. long texts); "
         "R: 8 targets generated per payload with the payload as module/class/property/enumeration/literal/constant/function/argument description, invariant message, constant value, pattern; "
         "evaluations = twin files + hunks streamed by TLC + distinct C# doc comments + real-parser verdicts; non-trivial = distinct hunks (places where a generated file differs from its harmless twin)"
         % (len(payloads), 2 if ck.quick else 3, n_accepted, len(cases))
